@@ -219,6 +219,8 @@ where
         let mut actions = Vec::new();
         #[cfg(getong_stateright_verif)]
         let mut max_count = crate::verif_hooks::block_size(max_count);
+        #[cfg(getong_stateright_verif)]
+        let generated = &crate::verif_hooks::YieldingSet(generated);
         loop {
             #[cfg(getong_stateright_verif)]
             crate::verif_hooks::yield_point("dfs.block_iteration");
